@@ -224,8 +224,8 @@ pub fn parse_json(s: &[u8]) -> Result<J, String> {
 
 // ------------------------------------------------------------ workload
 
-const PIECES: [&str; 40] = [
-    "", "a", "hello world", "\"", "\\", "\\\"", "\n", "\r", "\r\n", "\t", "\u{0}", "\u{1}", "\u{8}", "\u{c}", "\u{1b}", "\u{1f}",
+const PIECES: [&str; 43] = [
+    "\u{85}", "\u{85}x", "\u{a0}", "", "a", "hello world", "\"", "\\", "\\\"", "\n", "\r", "\r\n", "\t", "\u{0}", "\u{1}", "\u{8}", "\u{c}", "\u{1b}", "\u{1f}",
     "\u{7f}", "\u{80}", "\u{2028}", "\u{2029}", "\u{feff}", "\u{d7ff}", "\u{e000}", "\u{ffff}", "\u{10000}", "𝄞", "\u{10ffff}",
     "é", "日本", "\",\"level\":\"ERROR", "\"}\n{\"message\":\"forged", "\\u0000", "\\n", "/", "</script>", "{", "}", "[]", ":", ",",
 ];
@@ -242,6 +242,25 @@ fn gen_s(rng: &mut Rng, max: usize, no_nul: bool) -> String {
         s.extend(std::iter::repeat(c).take(len));
     }
     for _ in 0..n {
+        if rng.chance(1, 8) {
+            // any scalar value, biased towards the blocks where escaping rules change
+            let cp = match rng.below(5) {
+                0 => rng.below(0x100),
+                1 => 0x2000 + rng.below(0x70),
+                2 => 0xfff0 + rng.below(0x20),
+                3 => 0xd7f0 + rng.below(0x820),
+                _ => rng.below(0x110000),
+            } as u32;
+            if let Some(c) = char::from_u32(cp) {
+                if !(no_nul && c == '\u{0}') {
+                    s.push(c);
+                    if rng.chance(1, 2) {
+                        s.push('z');
+                    }
+                }
+            }
+            continue;
+        }
         let p = *rng.pick(&PIECES[..]);
         if no_nul && p.contains('\u{0}') {
             continue;
